@@ -172,6 +172,20 @@ Theorem message_without_mapping_is_payload attrs : split_message attrs [] = attr
 Proof. exact (split_message_none attrs). Qed.
 Print Assumptions message_without_mapping_is_payload.
 
+(* with an explicit Message(...) the listed attributes stay in the message (first, in
+   the listed order, whatever DSL they carry) and the unmapped others follow *)
+Theorem explicit_message_attributes listed attrs removed a :
+  In a (build_message listed attrs removed) <->
+  In a listed \/ (In a attrs /\ forall r, In r removed -> ~ In a r).
+Proof. exact (build_message_In listed attrs removed a). Qed.
+Print Assumptions explicit_message_attributes.
+
+(* a metadata / header / trailer attribute is required exactly when the design requires it *)
+Theorem metadata_required_as_designed md required a :
+  In a (required_metadata md required) <-> In a md /\ In a required.
+Proof. exact (required_metadata_In md required a). Qed.
+Print Assumptions metadata_required_as_designed.
+
 (* ---- request metadata through goa's client invoker: whatever the caller's context
    already carried, the server decoder reads under every key the caller's values
    followed by the values the request encoder appended, in order: nothing is lost,
@@ -180,6 +194,13 @@ Theorem request_metadata_is_merged caller written key :
   md_get (md_write caller written) key = md_get caller key ++ written_for key written.
 Proof. exact (md_get_write written caller key). Qed.
 Print Assumptions request_metadata_is_merged.
+
+(* ---- calls through one handler do not see each other: the response metadata of the
+   last call of any history is what that call alone wrote *)
+Theorem response_metadata_independent_of_history h1 h2 c :
+  last (run_history (h1 ++ [c])) [] = last (run_history (h2 ++ [c])) [].
+Proof. now rewrite !run_history_last. Qed.
+Print Assumptions response_metadata_independent_of_history.
 
 (* ---- the unary handler runs user code only after a successful decode (which
    includes the generated validation), and encodes only what the endpoint returned *)
